@@ -18,7 +18,8 @@ PROPERTY = "C19"
 LEVEL = "exploration"
 RULE = (
     "any_iter / await_each: the grid {plain, awaitable} outer x {list, iterator, async iterator} x {plain items, "
-    "awaitable items as coroutine / as object with __await__ / suspending} x lengths 0-6 x every number of "
+    "awaitable items as coroutine / as object with __await__ / as Future-like object that is awaitable AND "
+    "iterable / suspending} x lengths 0-6 x every number of "
     "consumer steps 0..len+1 is ENUMERATED completely; items must be the plain list's objects in order, and the "
     "k-th awaitable may only be awaited after the consumer asked for item k (await log interleaved with the "
     "consumer log). apply: Hypothesis draws 0-3 positional and 0-3 keyword arguments as awaitables of three "
@@ -49,11 +50,19 @@ class Aw:
         return self.value
 
 
+class AwIter(Aw):
+    """awaitable that is ALSO iterable, like asyncio.Future / Task (``__iter__ = __await__``)"""
+
+    __iter__ = Aw.__await__
+
+
 def wrap(ctx, kind, value, log=None, tag=None):
     if kind == "plain":
         return value
     if kind == "object":
         return Aw(ctx, value, log, tag)
+    if kind == "futurelike":
+        return AwIter(ctx, value, log, tag)
     if kind == "suspending":
         return Aw(ctx, value, log, tag, susp=1)
 
@@ -77,12 +86,12 @@ def close_unawaited(objs):
 def grid():
     out = []
     for outer, container, items, length in itertools.product(
-            ("plain", "coroutine", "object"), ("list", "iter", "aiter"),
-            ("plain", "coroutine", "object", "suspending"), range(0, 7)):
+            ("plain", "coroutine", "object", "futurelike"), ("list", "iter", "aiter"),
+            ("plain", "coroutine", "object", "suspending", "futurelike"), range(0, 7)):
         for steps in range(0, length + 2):
             out.append({"adapter": "any_iter", "outer": outer, "container": container, "items": items,
                         "length": length, "steps": steps})
-    for items, length in itertools.product(("coroutine", "object", "suspending"), range(0, 7)):
+    for items, length in itertools.product(("coroutine", "object", "suspending", "futurelike"), range(0, 7)):
         for container in ("list", "iter"):
             for steps in range(0, length + 2):
                 out.append({"adapter": "await_each", "container": container, "items": items, "length": length,
@@ -213,10 +222,12 @@ def sync_cases(draw):
     if flavour == "def":
         kinds = st.sampled_from(["plain", "raise"])
     elif flavour == "def-mixed":
-        kinds = st.sampled_from(["plain", "coroutine", "object", "raise", "suspending"])
+        kinds = st.sampled_from(["plain", "coroutine", "object", "raise", "suspending", "futurelike",
+                                 "coroutine-raises"])
     else:
         kinds = st.sampled_from(["value", "raise"])
-    return {"adapter": "sync", "flavour": flavour, "calls": draw(st.lists(kinds, min_size=1, max_size=4))}
+    return {"adapter": "sync", "flavour": flavour, "calls": draw(st.lists(kinds, min_size=1, max_size=4)),
+            "exc": draw(st.sampled_from(["ValueError", "TypeError", "AttributeError", "KeyError", "RuntimeError"]))}
 
 
 def check_sync(case):
@@ -226,9 +237,12 @@ def check_sync(case):
     errors = {}
     values = {}
 
+    exc_type = {"ValueError": ValueError, "TypeError": TypeError, "AttributeError": AttributeError,
+                "KeyError": KeyError, "RuntimeError": RuntimeError}[case.get("exc", "ValueError")]
+
     def outcome_for(k, kind):
         if kind == "raise":
-            errors[k] = ValueError(f"call {k}")
+            errors[k] = exc_type(f"call {k}")
             raise errors[k]
         values[k] = Item(0, k)
         return values[k]
@@ -237,6 +251,10 @@ def check_sync(case):
         k, kind = next(calls)
         if kind in ("plain", "raise", "value"):
             return outcome_for(k, kind)
+        if kind == "coroutine-raises":
+            # a plain function returning an awaitable whose await fails
+            errors[k] = exc_type(f"call {k}")
+            return Aw(ctx, None, exc=errors[k])
         values[k] = Item(0, k)
         return wrap(ctx, kind, values[k])
 
@@ -256,7 +274,7 @@ def check_sync(case):
         def __call__(self, arg):
             k, kind = next(calls)
             if kind == "raise":
-                errors[k] = ValueError(f"call {k}")
+                errors[k] = exc_type(f"call {k}")
                 return Aw(ctx, None, exc=errors[k])
             values[k] = Item(0, k)
             return Aw(ctx, values[k], susp=1)
@@ -274,7 +292,7 @@ def check_sync(case):
         if not inspect.isawaitable(awaitable):
             raise Violation("C19/sync/wrapper-did-not-return-an-awaitable", f"{case} call {k}: {awaitable!r}")
         outcome = run(ctx, _await(awaitable))
-        if kind == "raise":
+        if kind in ("raise", "coroutine-raises"):
             if outcome[0] != "raise" or outcome[1] is not errors.get(k):
                 raise Violation("C19/sync/exception-differs", f"{case} call {k}: {outcome!r}")
         elif outcome[0] != "return" or outcome[1] is not values.get(k):
